@@ -36,6 +36,8 @@ func runC36(c *Ctx) {
 	r.Rule("C36.R3", "layout: file header (seconds@0/32, microseconds@4/32, IPv4 source@8/4, port@12/16, big-endian, 16 bytes) and record header (length@0/16, packet length@2/16, offset@4/32, big-endian, 8 bytes) are stored by Marshal and decoded by Unmarshal at the same offset/width/byte order from/to the matching fields; seconds and microseconds are split and recombined with the same units; the record fields derive from the payload length / RTCP flag / offset and are inverted by the reader; the preamble the writer prints matches the reader's regular expression and peek length", 14)
 	r.NotCovered = append(r.NotCovered, "payload bytes themselves (copied verbatim)", "short reads/writes of the underlying stream", "RTP with an empty payload (indistinguishable from RTCP in the format; excluded by the property's 1..65527 range)")
 	r.Trusted = append(r.Trusted, "rtptools rtpdump file format (https://www.cs.columbia.edu/irt/software/rtptools/) as transcribed in props/c36.go", "interval arithmetic and guard-dominance argument of core/guards.go")
+	r.Rule("C36.R6", "the rtpdump reader fills its header and payload buffers completely: reads of the underlying stream go through io.ReadFull / io.ReadAtLeast, never a bare Read (a valid record larger than the buffered data is not mistaken for a malformed file)", 2)
+	c36R6(c) // c25c.go
 	l := core.NewLayout(c.P)
 	rec := &c36Recorder{r: r, verdict: map[string]bool{}}
 	c36Ranges(c, l, rec, false)
